@@ -374,6 +374,81 @@ Section OneMove.
   Qed.
 End OneMove.
 
+(* ------------------------------------------------------------------ examples (non-vacuity) *)
+Local Open Scope N_scope.
+
+(* roots /1 (local, the origin side) and /2 (remote); /5 is a folder outside the local root *)
+Definition exb_cfg : config :=
+  {| rootL := [1]; rootR := [2]; origin := Some false; check_spec := false; no_conflicted := true;
+     conflicted := [99]; step_bound := 10; cov_every_step := true |}.
+Definition exb_l0 : tree := [([1], Dir); ([5], Dir); ([1; 3], File 7); ([5; 4], Dir); ([5; 4; 6], File 8)].
+Definition exb_r0 : tree := [([2], Dir); ([2; 3], File 7)].
+(* the user moves the synchronised file /1/3 out of the root, to /5/3 ... *)
+Definition exb_l1 : tree := [([1], Dir); ([5], Dir); ([5; 3], File 7); ([5; 4], Dir); ([5; 4; 6], File 8)].
+Definition exb_r1 : tree := [([2], Dir)].
+(* ... and later the folder /5/4 (holding the file 6) into the root, to /1/4 *)
+Definition exb_l2 : tree := [([1], Dir); ([5], Dir); ([5; 3], File 7); ([1; 4], Dir); ([1; 4; 6], File 8)].
+Definition exb_r2 : tree := [([2], Dir); ([2; 4], Dir)].
+Definition exb_r3 : tree := [([2], Dir); ([2; 4], Dir); ([2; 4; 6], File 8)].
+
+Definition exb_u1 : obs := {| o_ev := EUser false (Rename [1; 3] [5; 3]); o_L := exb_l1; o_R := exb_r0 |}.
+Definition exb_mid1 : list obs :=
+  [ {| o_ev := EStep; o_L := exb_l1; o_R := exb_r0 |};
+    {| o_ev := EEng true [[2; 3]]; o_L := exb_l1; o_R := exb_r1 |};     (* the engine deletes /2/3 *)
+    {| o_ev := EStep; o_L := exb_l1; o_R := exb_r1 |} ].
+Definition exb_q1 : obs := {| o_ev := EQuiet; o_L := exb_l1; o_R := exb_r1 |}.
+Definition exb_u2 : obs := {| o_ev := EUser false (Rename [5; 4] [1; 4]); o_L := exb_l2; o_R := exb_r1 |}.
+Definition exb_mid2 : list obs :=
+  [ {| o_ev := EStep; o_L := exb_l2; o_R := exb_r1 |};
+    {| o_ev := EEng true [[2; 4]]; o_L := exb_l2; o_R := exb_r2 |};     (* the engine creates /2/4 ... *)
+    {| o_ev := EEng true [[2; 4; 6]]; o_L := exb_l2; o_R := exb_r3 |};  (* ... and /2/4/6 *)
+    {| o_ev := EStep; o_L := exb_l2; o_R := exb_r3 |} ].
+Definition exb_q2 : obs := {| o_ev := EQuiet; o_L := exb_l2; o_R := exb_r3 |}.
+Definition exb_trace : list obs := exb_u1 :: exb_mid1 ++ exb_q1 :: exb_u2 :: exb_mid2 ++ [exb_q2].
+
+Example exb_accepted : accepted exb_cfg exb_l0 exb_r0 exb_trace = true.
+Proof. vm_compute. reflexivity. Qed.
+
+Example exb_accept : exists m', accept exb_cfg exb_l0 exb_r0 exb_trace = inl m'.
+Proof. eexists. vm_compute. reflexivity. Qed.
+
+Example exb_wf : wf (side_tree false exb_l0 exb_r0).
+Proof. apply wfb_sound. vm_compute. reflexivity. Qed.
+
+(* the hypotheses of the two corollaries hold of this trace; their conclusions, instantiated *)
+Example exb_move_out :
+  (forall s, lookup (view [2] exb_r1) ([3] ++ s) = None) /\
+  (forall k, is_prefix [3] k = false -> lookup (view [2] exb_r1) k = lookup (view [1] exb_l0) k).
+Proof.
+  destruct exb_accept as [m' Hacc].
+  exact (move_out_is_delete exb_cfg exb_l0 exb_r0 exb_trace m' false eq_refl eq_refl exb_wf Hacc
+           [] exb_u1 exb_mid1 exb_q1 (exb_u2 :: exb_mid2 ++ [exb_q2]) [1; 3] [5; 3]
+           eq_refl eq_refl eq_refl eq_refl eq_refl [3] eq_refl eq_refl).
+Qed.
+
+Example exb_move_in :
+  (forall s, lookup (view [2] exb_r3) ([4] ++ s) = lookup exb_l1 ([5; 4] ++ s)) /\
+  (forall k, is_prefix [4] k = false -> lookup (view [2] exb_r3) k = lookup (view [1] exb_l1) k).
+Proof.
+  destruct exb_accept as [m' Hacc].
+  exact (move_in_is_create exb_cfg exb_l0 exb_r0 exb_trace m' false eq_refl eq_refl exb_wf Hacc
+           (exb_u1 :: exb_mid1 ++ [exb_q1]) exb_u2 exb_mid2 exb_q2 [] [5; 4] [1; 4]
+           eq_refl eq_refl eq_refl eq_refl eq_refl [4] eq_refl eq_refl).
+Qed.
+
+(* a trace in which the engine leaves the moved-out file on the peer is rejected at the quiet report *)
+Example exb_rejected_not_deleted :
+  accept exb_cfg exb_l0 exb_r0
+    [ exb_u1; {| o_ev := EStep; o_L := exb_l1; o_R := exb_r0 |}; {| o_ev := EQuiet; o_L := exb_l1; o_R := exb_r0 |} ]
+  = inr (2%nat, G_CONVERGE).
+Proof. vm_compute. reflexivity. Qed.
+
+(* an engine action that changes the origin side OUTSIDE its root (undoing the move) is rejected *)
+Example exb_rejected_origin_outside :
+  accept exb_cfg exb_l0 exb_r0
+    [ exb_u1; {| o_ev := EEng false [[1; 3]]; o_L := exb_l0; o_R := exb_r0 |} ] = inr (1%nat, G_OUTSIDE).
+Proof. vm_compute. reflexivity. Qed.
+
 Print Assumptions tree_from_parts.
 Print Assumptions origin_tree_is_history.
 Print Assumptions boundary_moves_mirror.
